@@ -175,6 +175,10 @@ def join_aux(source_name, source_key, source_delete,  # noqa: C901
              target_name, target_key, fields, full, mode):
 
     deduplication = target_key is None
+    # `count` counts the occurrences of a key; when it is given the `name` of a
+    # source field it counts the non-null values of that field
+    counted_fields = set(field for field, spec in fields.items()
+                         if spec and spec.get('aggregate') == 'count' and 'name' in spec)
     fields = fix_fields(fields)
     source_key = KeyCalc(source_key)
     target_key = KeyCalc(target_key) if target_key is not None else target_key
@@ -205,7 +209,7 @@ def join_aux(source_name, source_key, source_delete,  # noqa: C901
                 name = spec['name']
                 curr = current.get(field)
                 agg = spec['aggregate']
-                if agg != 'count':
+                if agg != 'count' or field in counted_fields:
                     new = row.get(name)
                 else:
                     new = ''
